@@ -1,6 +1,7 @@
 SPECIFICATION ASpec
 CONSTANTS
   Emit = FALSE
+  Ghosts = FALSE
   SepMode = "all"
   Mode = "seeds"
   MaxMut = 3
